@@ -32,7 +32,8 @@ class Atom(RefBase[T], Generic[T]):
 
     def _compare_and_set(self, old: T, new: T) -> bool:
         with self._lock:
-            if self._state != old:
+            state = self._state
+            if state is not old and state != old:
                 return False
             self._state = new
             return True
